@@ -71,6 +71,10 @@ def missing_rule(repo: Repo, rep: Report, rid: str) -> None:
     ok = ok and sets.get(f"{m}._value_") == v and sets.get(f"{m}._name_") == "None" and rets == [m]
     rep.check(ok, rid, f"{fi.key}:pseudo-member", "int.__new__(cls, value) with _value_ = value, _name_ = None",
               f"Enum._missing_ no longer preserves the raw value (new={[norm(s.value) for s in new]}, sets={sets}, returns={rets})", fi.loc())
+    raises = [x for x in walk_body(fi.node.body) if isinstance(x, (ast.Raise, ast.Assert))]
+    rep.check(not raises and len(rets) == 1, rid, f"{fi.key}:total", "_missing_ accepts every value (no raise, single return)",
+              f"Enum._missing_ rejects some values ({[short(x, 60) for x in raises]}): an underlying integer that names no member must still be "
+              f"preserved (e.g. negative values of an enum on a signed type)", fi.loc())
     ci = repo.cls("Flag")
     kw = [k.arg for k in ci.node.keywords]
     rep.check("IntFlag" in ci.bases and "boundary" not in kw, rid, "types/flag.py:Flag:bases", "IntFlag without a boundary (KEEP semantics)",
